@@ -9,6 +9,7 @@ then the results are equal; when rejected only by strictness the error has code 
 offending license and its position; non-strict outcomes do not depend on the flags of the table.
 """
 import random
+import itertools
 
 from core import imp, run_model, enc_table, enc_str, make_licensing, dec_str
 import gen
@@ -119,6 +120,13 @@ def run(rep, tier, seed):
     le = imp()
     rep.broken = []
     rep.compared = 0
+    for flags in itertools.product((False, True), repeat=3):
+        for text, keys in ALIAS_TEXTS:
+            rep.case(('alias', flags, text), nontrivial=True, sample=None)
+            rep.count('alias_table_cases')
+            err = alias_case(flags, text, keys, le)
+            if err:
+                rep.violations.append({'key': 'strict-alias', 'kind': 'alias-table', 'flags': list(flags), 'text': text, 'keys': keys, 'what': err})
     rep.trail = []      # one entry per Licensing used so far: other Licensing objects are the only shared context
     maxlen = 6 if tier == 'thorough' else 5
     tables = flag_tables()
@@ -172,7 +180,55 @@ def run(rep, tier, seed):
                                           % (gen.render_tokens(t), simple, T, model[2 * i], model[2 * i + 1], ns, st))
 
 
+# texts over the alias table with the keys they name, in text order
+ALIAS_TEXTS = [('mit with cp exc', ['mit', 'cp-exc']), ('mit and cp exc', ['mit', 'cp-exc']), ('cp exc with mit', ['cp-exc', 'mit']),
+               ('mit with cp exc 2.0 or cp exc', ['mit', 'cp-2.0', 'cp-exc']), ('(cp exc) or mit', ['cp-exc', 'mit']),
+               ('MIT WITH  CP  EXC', ['mit', 'cp-exc']), ('mit with unknown thing', ['mit', 'unknown thing']),
+               ('cp exc 2.0 with cp exc', ['cp-2.0', 'cp-exc']), ('mit lic with cp exc', ['mit', 'cp-exc'])]
+
+
+def alias_table(flags):
+    # the shorter alias is the beginning of a longer name declared before it
+    return [('mit', ['mit lic'], flags[0]), ('cp-2.0', ['cp exc 2.0'], flags[1]), ('cp-exc', ['cp exc'], flags[2])]
+
+
+def alias_case(flags, text, keys, le):
+    """Names spelled through aliases: strict parsing accepts exactly when the non-strict tree has every license in its role
+    (flags of the table; unknown licenses are not exceptions). Returns error text or None."""
+    T = alias_table(flags)
+    L = make_licensing(T)
+    try:
+        tree = L.parse(text, strict=False)
+    except le.ExpressionError as ex:
+        return 'non-strict parsing refuses the text: %s' % ex
+    if L.license_keys(tree, unique=False) != keys:
+        return 'the text names %r, non-strict parsing found %r' % (keys, L.license_keys(tree, unique=False))
+    byflag = {k: f for k, _, f in T}
+    bad = []
+    for a in tree.get_literals():
+        if isinstance(a, le.LicenseWithExceptionSymbol):
+            if byflag.get(a.license_symbol.key, False):
+                bad.append(a.license_symbol.key)
+            if not byflag.get(a.exception_symbol.key, False):
+                bad.append(a.exception_symbol.key)
+        elif byflag.get(a.key, False):
+            bad.append(a.key)
+    try:
+        st = L.parse(text, strict=True)
+        accepted = True
+    except le.ExpressionError:
+        accepted = False
+    if accepted != (not bad):
+        return 'strict parsing accepted=%r, licenses in a wrong role: %r (non-strict tree %r)' % (accepted, bad, tree)
+    if accepted and repr(st) != repr(tree):
+        return 'strict result %r differs from the non-strict one %r' % (st, tree)
+    return None
+
+
 def replay(payload):
+    if payload.get('kind') == 'alias-table':
+        err = alias_case(tuple(payload['flags']), payload['text'], payload['keys'], imp())
+        return err is None, err or 'strict rule holds over the alias table'
     T = [tuple(x) for x in payload['table']]
     T = [(k, a, e) for k, a, e in T]
     L = make_licensing(T, form='loose' if payload.get('loose') else None)
